@@ -318,6 +318,12 @@ func (m *clientHelloMsg) MakeLog() *ClientHello {
 	ch.TicketSupported = m.ticketSupported
 	ch.SecureRenegotiation = m.secureRenegotiationSupported && len(m.secureRenegotiation) > 0
 
+	if len(m.extendedRandom) > 0 {
+		ch.ExtendedRandom = make([]byte, len(m.extendedRandom))
+		copy(ch.ExtendedRandom, m.extendedRandom)
+	}
+	ch.ExtendedMasterSecret = m.extendedMasterSecret
+
 	ch.ServerName = m.serverName
 	ch.Scts = m.scts
 
